@@ -241,7 +241,10 @@ func c01Check(env *core.Env, cc core.Case) core.Verdict {
 		}
 	}
 	run := raGenerate(env, root, p.Main, true)
-	if run.Res.Class() == sut.ClassFault || run.Res.Class() == sut.ClassTimeout {
+	if run.Res.Class() == sut.ClassTimeout {
+		return core.Incon("watchdog hit, not judged: %s", describe(run.Res))
+	}
+	if run.Res.Class() == sut.ClassFault {
 		return core.Viol("crash", "generate crashed on a well-formed program: %s\nprogram=%s", describe(run.Res), core.Q(p.Main))
 	}
 	if run.Res.Exit != 0 {
